@@ -446,3 +446,168 @@ func freshOrNil(v ssa.Value) bool {
 	}
 	return false
 }
+
+// pruneScansWholeKeyspace: the iterator the prune loop walks sees every key: it is created with
+// no options or with options that set no bounds. A bound taken from the radius hides the item
+// that sits exactly at it (pebble's upper bound is exclusive); the radius is then lowered past an
+// item that is never visited again.
+func pruneScansWholeKeyspace(c *Ctx, m *storeModel, rule string) {
+	p, r := c.P, c.R
+	n := 0
+	for _, fn := range []*ssa.Function{m.prune, m.ctor} {
+		if fn == nil {
+			continue
+		}
+		for i, ci := range core.CallsTo(fn, pebbleNewIter) {
+			n++
+			args := ci.Common().Args
+			opt := args[len(args)-1]
+			bounded := ""
+			if !core.IsNilConst(opt) {
+				if al, ok := core.Unwrap(opt).(*ssa.Alloc); ok {
+					for _, rf := range *al.Referrers() {
+						if fa, isFa := rf.(*ssa.FieldAddr); isFa {
+							if _, f, _, okF := core.FieldRef(fa); okF && (f == "UpperBound" || f == "LowerBound") {
+								for _, r2 := range *fa.Referrers() {
+									if st, isSt := r2.(*ssa.Store); isSt && !core.IsNilConst(st.Val) {
+										bounded = f
+									}
+								}
+							}
+						}
+					}
+				} else {
+					bounded = "options of unknown origin"
+				}
+			}
+			r.Check(bounded == "", rule, fmt.Sprintf("%s scan-unbounded #%d", core.FuncName(fn), i+1), p.Pos(ci.Pos()), "the database iterator is created without key bounds", "the iterator is created with "+bounded+" set: keys outside the bound are invisible to the scan (an exclusive upper bound at the radius hides the retained item that sits exactly at the radius; once the radius is lowered that item lies beyond it for good)")
+		}
+	}
+	r.Check(n >= 1, rule, "store iterators", "-", fmt.Sprintf("%d iterator creation(s) inspected", n), "no database iterator found in prune / the constructor")
+}
+
+// sizeKeyIsSmallest: the reserved key of the usage record is the all-zero key of full key
+// length, i.e. it sorts before every content key. The store relies on that: the open-time radius
+// is read from Iterator.Last(), and the farthest-first prune walks down from the top.
+func sizeKeyIsSmallest(c *Ctx, rule string) {
+	p, r := c.P, c.R
+	sp := p.SSAPkg("storage")
+	if sp == nil {
+		r.Fail(rule, "size-record key", "-", "anchor-unresolved: package storage")
+		return
+	}
+	g, _ := sp.Members["SizeKey"].(*ssa.Global)
+	init := sp.Func("init")
+	if g == nil || init == nil {
+		r.Fail(rule, "size-record key", "-", "anchor-unresolved: storage.SizeKey")
+		return
+	}
+	zero32 := func(v ssa.Value) bool {
+		// uint256.NewInt(0).Bytes32(), [32]byte{}, make([]byte, 32)
+		ok := false
+		core.Derives(v, func(x ssa.Value) bool {
+			switch y := x.(type) {
+			case *ssa.Call:
+				if strings.HasSuffix(core.CalleeID(y), "uint256.(*Int).Bytes32") {
+					if nc, isC := y.Call.Args[0].(*ssa.Call); isC && strings.HasSuffix(core.CalleeID(nc), "uint256.NewInt") {
+						if k, isK := core.ConstInt(nc.Call.Args[0]); isK && k == 0 {
+							ok = true
+						}
+					}
+				}
+			case *ssa.MakeSlice:
+				if k, isK := core.ConstInt(y.Len); isK && k == 32 {
+					ok = true
+				}
+			}
+			return false
+		}, core.DeriveOpts{})
+		return ok
+	}
+	okKey := false
+	for _, b := range init.Blocks {
+		for _, in := range b.Instrs {
+			st, isSt := in.(*ssa.Store)
+			if !isSt || st.Addr != ssa.Value(g) {
+				continue
+			}
+			// a slice of another package-level value: follow that value's initialiser
+			if sl, isSl := st.Val.(*ssa.Slice); isSl {
+				if g2, isG := sl.X.(*ssa.Global); isG {
+					for _, b2 := range init.Blocks {
+						for _, i2 := range b2.Instrs {
+							if s2, isS2 := i2.(*ssa.Store); isS2 && s2.Addr == ssa.Value(g2) && zero32(s2.Val) {
+								okKey = true
+							}
+						}
+					}
+					continue
+				}
+			}
+			if zero32(st.Val) {
+				okKey = true
+			}
+		}
+	}
+	r.Check(okKey, rule, "size-record key", p.Pos(g.Pos()), "the usage record lives under the 32-byte all-zero key, below every content key", "the usage record's key is not the all-zero key of full length: it no longer sorts below every content key, so Iterator.Last() on open (the radius re-derivation) and the top-down prune can land on the record instead of an item (a store that is nearly full then fails to reopen)")
+}
+
+// keyFnLeavesArgumentsAlone: the function that derives the database key from (content id, node
+// id) does not write into its arguments. Writing the result into the caller's id changes which
+// key the caller's next Get/Put of "the same id" addresses.
+func keyFnLeavesArgumentsAlone(c *Ctx, m *storeModel, rule string) {
+	p, r := c.P, c.R
+	if m.keyFn == nil {
+		return
+	}
+	var bad *ssa.Store
+	for _, b := range m.keyFn.Blocks {
+		for _, in := range b.Instrs {
+			st, ok := in.(*ssa.Store)
+			if !ok {
+				continue
+			}
+			ia, ok := st.Addr.(*ssa.IndexAddr)
+			if !ok {
+				continue
+			}
+			for _, leaf := range sliceOrigins(ia.X) {
+				if _, isP := leaf.(*ssa.Parameter); isP {
+					bad = st
+				}
+			}
+		}
+	}
+	pos := p.Pos(m.keyFn.Pos())
+	if bad != nil {
+		pos = p.Pos(bad.Pos())
+	}
+	r.Check(bad == nil, rule, core.FuncName(m.keyFn)+" leaves-arguments-alone", pos, "the key derivation writes only into memory of its own", "the key derivation writes into a slice that can be its argument: the caller's content id is overwritten with the key, and the caller's next Get/Put with the same slice addresses another item's key (a put is not found again; bytes are returned for an id they were never put under)")
+}
+
+// sliceOrigins: the slices v can be (through phis, re-slicing, type changes).
+func sliceOrigins(v ssa.Value) []ssa.Value {
+	var out []ssa.Value
+	seen := map[ssa.Value]bool{}
+	var rec func(v ssa.Value)
+	rec = func(v ssa.Value) {
+		if v == nil || seen[v] {
+			return
+		}
+		seen[v] = true
+		switch x := v.(type) {
+		case *ssa.Phi:
+			for _, e := range x.Edges {
+				rec(e)
+			}
+		case *ssa.Slice:
+			rec(x.X)
+		case *ssa.ChangeType:
+			rec(x.X)
+		default:
+			out = append(out, v)
+		}
+	}
+	rec(v)
+	return out
+}
